@@ -90,6 +90,14 @@ def gen_scenarios(tier, seed):
         out.append(mk(rng, family="read-reset", S=S, win_o=0, win_t=S, event_flags=rng.choice([0, TP_F_DISPATCH]),
                       task_flags=rng.choice([0, TASK_F_EVERY_READ]), every_read_reset=rng.below(2), use_tcp=1, close_mode=3,
                       timeout_ms=rng.choice([0, 5000]), payload=rng.bytes(P), frags=fragments(rng, P, 500, [0, 100])))
+    # A4: stop + start again in mid-stream while bytes were read but not yet reported (no callback-after-every-read)
+    for i in range(12 * scale):
+        S = rng.choice([64, 256])
+        first = rng.range(1, S // 4)
+        P = first + rng.choice([8, 40, 300])
+        out.append(mk(rng, family="read-stop-restart", S=S, win_o=0, win_t=S, event_flags=rng.choice([0, TP_F_DISPATCH]), task_flags=0,
+                      sfio=rng.below(2), every_read_reset=rng.below(2), timeout_ms=0, payload=rng.bytes(P),
+                      frags=[(first, 0), (0, 0xffffffff)] + fragments(rng, P - first, 20, [0, 100])))
     # B: stop in the middle of the stream; nothing may be delivered afterwards although the feeder keeps writing
     for i in range(20 * scale):
         S = rng.choice([8, 64, 512])
@@ -172,12 +180,13 @@ def check(sc, obs, part):
         eofs = [e for e in cbs if e[3] != 0 and e[5] == 0 and e[4] == 0]
         total_tr = sum(e[5] for e in cbs)
         part["classes"].add(cls_base + ("S%d" % len(str(sc["S"])), "P%d" % len(str(P)), "to" if timeouts else "noto", "eof" if eofs else "noeof"))
-        if total_tr != len(stream):
+        harvested = sum(e[4] for e in events if e[2] == EV_NOTE and e[3] == 8)   # bytes read before a stop+restart and never reported
+        if total_tr + harvested != len(stream):
             viol.append(("stream:read:transferred-sum-differs-from-bytes-in-windows", "sum=%d stream=%d" % (total_tr, len(stream))))
         if stream != payload[:len(stream)]:
             k = next((i for i in range(min(len(stream), P)) if stream[i] != payload[i]), min(len(stream), P))
             viol.append(("stream:read:bytes-differ-from-what-the-peer-wrote", "first difference at %d of %d (delivered %d)" % (k, P, len(stream))))
-        if fam in ("read", "read-dispatch-pause"):
+        if fam in ("read", "read-dispatch-pause", "read-stop-restart"):
             if len(stream) != P:
                 viol.append(("stream:read:bytes-lost-or-duplicated", "delivered %d of %d bytes (stop reason %s)" % (len(stream), P, [e[3] for e in stops])))
             if len(eofs) != 1:
